@@ -30,17 +30,17 @@ KEYTYPE = {"args": "l", "deps": "s", "executable": "s", "compiler-style": "s", "
            "repair-via-ownership-analysis": "b"}
 # python oracle, independent restatement: the attributes that each tool's getSignature() hashes (besides the
 # ExternalCommand part name/inputs/outputs/three flags) ...
-HASHED_KEYS = {"clang": ["args"], "mkdir": [], "archive": [], "shared-library": [],
+HASHED_KEYS = {"clang": ["args", "deps"], "mkdir": [], "archive": [], "shared-library": ["executable", "compiler-style", "other-args"],
                "swift-compiler": ["executable", "module-name", "module-aliases", "module-output-path", "sources", "objects",
-                                  "import-paths", "temps-path", "other-args", "is-library"],
+                                  "import-paths", "temps-path", "other-args", "is-library", "enable-whole-module-optimization",
+                                  "num-threads"],
                "symlink": ["contents"], "stale-file-removal": [], "node": ["type", "producers"]}
-# ... and the attributes that are NOT hashed although they change what the command does (findings; see notes/C09.md)
-BEHAVIOURAL_UNHASHED = {"shell": ["working-directory", "control-enabled"], "clang": ["deps"],
-                        "shared-library": ["executable", "other-args", "compiler-style"],
-                        "swift-compiler": ["enable-whole-module-optimization", "num-threads"]}
-# Set to True once known_findings.json carries the entries proposed in notes/C09.md ("Follow-up: proofs added"):
-# the unhashed-attribute pairs and histories then count as oracle failures (family "unsigned-attribute").
-STRICT_UNSIGNED_ATTRIBUTES = False
+# ... and the attributes that are NOT hashed although they change what the command does.  Empty since fixes F49-F52
+# (shell working-directory / control-enabled, clang deps, shared-library executable / other-args / compiler-style,
+# swift-compiler enable-whole-module-optimization / num-threads are hashed now and listed in HASHED_KEYS / `relevant`).
+BEHAVIOURAL_UNHASHED = {}
+# unhashed-but-behavioural pairs and histories count as oracle failures (family "unsigned-attribute")
+STRICT_UNSIGNED_ATTRIBUTES = True
 EXT_TOOLS = ("clang", "mkdir", "archive", "shared-library", "swift-compiler")     # ExternalCommand subclasses
 
 
@@ -208,13 +208,16 @@ def ovariants(d):
 
 def relevant(d):
     """Independent restatement of the signature-relevant part (python oracle).  The explicit signature
-    replaces args/env/deps/deps-style/inherit-env/can-safely-interrupt (docs/buildsystem.rst)."""
+    replaces the built-in strategy: args/env/deps/deps-style/inherit-env/can-safely-interrupt/working-directory/
+    control-enabled (docs/buildsystem.rst)."""
     common = (d["tool"], d["name"], tuple(d["inputs"]), tuple(d["outputs"]), d["ami"], d["amo"], d["aood"])
     if d["tool"] != "shell":
         return common
     if d["sig"]:
         return common + (("explicit", d["sig"]),)
-    return common + (("builtin", tuple(d["args"]), tuple(d["env"]), tuple(d["deps"]), d["style"], d["inh"], d["csi"]),)
+    tail = dict(d.get("tail", []))
+    return common + (("builtin", tuple(d["args"]), tuple(d["env"]), tuple(d["deps"]), d["style"], d["inh"], d["csi"],
+                      tail.get("working-directory", b""), tail.get("control-enabled", True)),)
 
 
 def show(d):
@@ -314,9 +317,21 @@ def variants(d):
                 put("move:args>deps", args=a[:-1], deps=[a[-1]] + dp)
             if dp:
                 put("move:deps>args", args=a + [dp[0]], deps=dp[1:])
-        # attributes that are NOT hashed (findings): the signature must stay the same, the pair is recorded
-        put("unhashed:working-directory", tail=[("working-directory", b"/w d")])
-        put("unhashed:control-enabled", tail=[("control-enabled", False)])
+        # working-directory (absolute: configureAttribute makes a relative one absolute against the process cwd) and
+        # control-enabled: hashed by the built-in strategy since F49, replaced by an explicit signature
+        tl = dict(d.get("tail", []))
+        wd, ce = tl.get("working-directory", b""), tl.get("control-enabled", True)
+        pre = "irrelevant:" if d["sig"] else ""
+
+        def tail(wd, ce):
+            return ([("working-directory", wd)] if wd else []) + ([("control-enabled", ce)] if not ce else [])
+        put(pre + "working-directory", tail=tail(wd + b"/w d", ce))
+        if wd:
+            put(pre + "working-directory", tail=tail(b"", ce))
+            put(pre + "working-directory", tail=tail(wd[:-1], ce))
+        put(pre + "control-enabled", tail=tail(wd, not ce))
+        if dp and not wd and dp[-1].startswith(b"/") and not d["sig"]:
+            put("move:deps>working-directory", deps=dp[:-1], tail=tail(dp[-1], ce))
         for s in range(4):
             if s != d["style"]:
                 put("style", style=s)
@@ -374,7 +389,7 @@ class Check(PropertyCheck):
                 # every other class with a regenerated recipe (Props/C09Classes.lean)
                 "LLBuild.Signature.C09_sig_iff_shell", "LLBuild.Signature.C09_sig_iff_external",
                 "LLBuild.Signature.C09_sig_iff_command", "LLBuild.Signature.C09_sig_iff_clang",
-                "LLBuild.Signature.C09_sig_iff_swift", "LLBuild.Signature.C09_sig_iff_symlink",
+                "LLBuild.Signature.C09_sig_iff_swift", "LLBuild.Signature.C09_sig_iff_sharedLibrary", "LLBuild.Signature.C09_sig_iff_symlink",
                 "LLBuild.Signature.C09_symlink_without_output_undefined", "LLBuild.Signature.C09_sig_iff_buildNode",
                 "LLBuild.Signature.C09_sig_iff_all_classes", "LLBuild.Signature.C09_sig_defined_all_classes",
                 "LLBuild.Signature.C09_sig_pure_all_classes", "LLBuild.Signature.C09_tool_classes",
@@ -392,7 +407,8 @@ class Check(PropertyCheck):
         "the null-build / re-run-iff half of C09 rests on the engine model (C02) and is not part of this check",
         "CommandDef -> field values: the loader's configure* functions store attribute values unchanged (exercised, not proved: every generated definition of every tool goes through the real BuildFile loader)",
         "symlink commands have exactly one declared output (what configureOutputs accepts; without an `outputs:` key the real getSignature() reads outputs[0] out of bounds - model: no term)",
-        "attributes that are not hashed although they change what the command does (shell working-directory/control-enabled, clang deps, shared-library executable/other-args/compiler-style, swift-compiler enable-whole-module-optimization/num-threads) are findings recorded in coverage.histories / unsigned_attribute_pairs; they become oracle failures when STRICT_UNSIGNED_ATTRIBUTES is set",
+        "shell working-directory is compared as stored (absolute); a RELATIVE working-directory is made absolute against the process cwd by configureAttribute, so its signature (like what the command does) depends on where llbuild runs - generators use absolute values only",
+        "attributes judged not to change what a command does stay unhashed: repair-via-ownership-analysis, description, symlink link-output-path (isResultValid stats the actual path; history re-runs), stale-file-removal expectedOutputs/roots (always runs)",
     ]
     trusted_base = ["extractor x_signature (clang-14 JSON AST -> recipe; overload resolved through the callee decl id; Hashing.h text shapes; "
                     "tool -> command class -> nearest getSignature override and the attribute names of the configureAttribute overloads are read at TEXT level)",
@@ -431,6 +447,9 @@ class Check(PropertyCheck):
                 d["inh"] = rng.chance(1, 2)
                 d["csi"] = rng.chance(1, 2)
                 d["sig"] = rng.choice([b"s", b"sig 2", b"a"]) if rng.chance(1, 6) else b""
+                if rng.chance(1, 3):
+                    d["tail"] = ([("working-directory", rng.choice([b"/w", b"/p/q", b"/a b"]))] if rng.chance(2, 3) else []) + \
+                                ([("control-enabled", False)] if rng.chance(1, 2) else [])
             out.append(d)
         return out
 
@@ -539,14 +558,15 @@ class Check(PropertyCheck):
         cases = [  # (tool, attribute, hashed?, common attributes, first value, second value)
             ("shell", "args (control: hashed)", True, [], shell[0][1], shell[0][1].replace("echo ran", "echo  ran")),
             ("shell", "(control: nothing changed)", None, shell, None, None),
-            ("shell", "working-directory", False, shell, '"$D/w1"', '"$D/w2"'),
-            ("shell", "control-enabled", False, shell, "true", "false"),
-            ("clang", "deps", False, clang, '"$D/d1.d"', '"$D/d2.d"'),
-            ("shared-library", "other-args", False, shlib + [("executable", '"$D/fake"'), ("compiler-style", '"clang"')], '["-O1"]', '["-O2"]'),
-            ("shared-library", "compiler-style", False, shlib + [("executable", '"$D/fake"'), ("other-args", '["-O1"]')], '"clang"', '"swiftc"'),
-            ("shared-library", "executable", False, shlib + [("compiler-style", '"clang"')], '"$D/fake"', '"$D/fake2"'),
-            ("swift-compiler", "enable-whole-module-optimization", False, swift, "false", "true"),
-            ("swift-compiler", "num-threads", False, swift + [("enable-whole-module-optimization", "true")], "0", "4"),
+            ("shell", "working-directory", True, shell, '"$D/w1"', '"$D/w2"'),
+            ("shell", "control-enabled", True, shell, "true", "false"),
+            ("shell", "working-directory (replaced by an explicit signature)", None, shell + [("signature", '"s"')], '"$D/w1"', '"$D/w2"'),
+            ("clang", "deps", True, clang, '"$D/d1.d"', '"$D/d2.d"'),
+            ("shared-library", "other-args", True, shlib + [("executable", '"$D/fake"'), ("compiler-style", '"clang"')], '["-O1"]', '["-O2"]'),
+            ("shared-library", "compiler-style", True, shlib + [("executable", '"$D/fake"'), ("other-args", '["-O1"]')], '"clang"', '"swiftc"'),
+            ("shared-library", "executable", True, shlib + [("compiler-style", '"clang"')], '"$D/fake"', '"$D/fake2"'),
+            ("swift-compiler", "enable-whole-module-optimization", True, swift, "false", "true"),
+            ("swift-compiler", "num-threads", True, swift + [("enable-whole-module-optimization", "true")], "0", "4"),
             ("swift-compiler", "other-args (control: hashed)", True, swift, '["-O"]', '["-Onone"]'),
             ("symlink", "link-output-path", False, [("contents", '"target"')], '"$D/l1"', '"$D/l2"'),
             ("symlink", "contents (control: hashed)", True, [], '"t1"', '"t2"'),
@@ -588,7 +608,7 @@ class Check(PropertyCheck):
                 res.oracle_failures.append({"what": "changing the hashed attribute %s of a %s command did not re-run it" % (attr, tool),
                                             "kind": "not-rerun", "family": "history", "tool": tool, "attribute": attr, "input": row})
             elif hashed is None and ran_again:
-                res.oracle_failures.append({"what": "an unchanged %s command ran again" % tool,
+                res.oracle_failures.append({"what": "a %s command whose signature-relevant definition did not change ran again: %s" % (tool, attr),
                                             "kind": "rerun-without-change", "family": "history", "tool": tool, "attribute": attr, "input": row})
             elif hashed is False and not ran_again and STRICT_UNSIGNED_ATTRIBUTES:
                 res.oracle_failures.append({"what": "changing only `%s` of a %s command (it changes what the command does) did not re-run it" % (attr, tool),
@@ -803,7 +823,7 @@ class Check(PropertyCheck):
                     "from it in exactly one attribute, including every move of a boundary between adjacent lists and between adjacent elements; "
                     "each definition's getSignature() computed in two separate processes and by the Lean model (bit-exact). "
                     "The same for clang / mkdir / archive / shared-library / swift-compiler / symlink / stale-file-removal commands and for node rules "
-                    "(BuildNode::getSignature observed on the output node of a producing command).  13 two-build histories through bin/llbuild "
+                    "(BuildNode::getSignature observed on the output node of a producing command).  14 two-build histories through bin/llbuild "
                     "(one attribute changed between the builds). "
                     "Non-trivial = pairs whose signature-relevant parts differ.")
         res.exhaustive = False
